@@ -1,6 +1,8 @@
 import Deb822Verif.Driver.Proto
 import Deb822Verif.Model.RelWrap
 import Deb822Verif.Model.RelEq
+import Deb822Verif.Model.RelEdit
+import Deb822Verif.Model.RelBuild
 import Deb822Verif.Props.C13Pairs
 /-! C13 driver: `rel.wrap <field text> <allow_substvar>` (see harness/src/reledit.rs). -/
 namespace Deb822Verif.Driver.RelWrap
@@ -41,6 +43,23 @@ def handle (op : String) (args : List String) : Option String :=
             | .ok w3 => encStr w3.text
             | .panic _ => "PANIC-OR-UNPARSABLE"
         pure s!"{encStr t1} {dump w1} | {t2} | {t3}"
+  -- `rel.wrape <t> <allow> <k>`: the parsed field with `Entry::new()` inserted at entry index `k`
+  | "rel.wrape", [t, allow, k] => do
+    let s ← decStr t
+    let al := allow == "1"
+    let k ← k.toNat?
+    let p := parse s al
+    if !p.errors.isEmpty then pure "NOT-WELL-FORMED"
+    else if Props.C13.sortMayPanic p.tree == some true || (accEntries p.tree).isNone then pure "OUTSIDE"
+    else
+      let fld : Rel.Edit.Field := ⟨p.tree.children, [], []⟩
+      match relationsWrap (fld.insert k Rel.Build.entryNew).root with
+      | .panic _ => pure "PANIC"
+      | .ok w1 =>
+        let t2 := match relationsWrap w1 with
+          | .ok w2 => encStr w2.text
+          | .panic _ => "PANIC"
+        pure s!"{encStr w1.text} {dump w1} | {t2}"
   -- `rel.eqcmp <a> <b>`: `==` and `cmp` of two strictly read fields, at relation / entry / field
   -- level (Model/RelEq.lean; harness/src/reledit.rs)
   | "rel.eqcmp", [ta, tb] => do
